@@ -219,13 +219,11 @@ class PopulationChangeTolerance(EvolvingAnsatzMinimumEigensolverBaseTerminationC
         if allowed_consecutive_violations < 0:
             raise ValueError("allowed_consecutive_violations must be at least 0!")
         self._allowed_consecutive_violations: int = allowed_consecutive_violations
-        self._change_history: list[float] = [
-            10 * self._minimum_change for _ in range(0, self._allowed_consecutive_violations + 1)
-        ]
+        self._change_history: list[float] = [float("inf") for _ in range(0, self._allowed_consecutive_violations + 1)]
         self._last_population_evaluation: Optional[BasePopulationEvaluationResult] = None
 
     def reset_state(self) -> None:
-        self._change_history = [10 * self._minimum_change for _ in range(0, self._allowed_consecutive_violations + 1)]
+        self._change_history = [float("inf") for _ in range(0, self._allowed_consecutive_violations + 1)]
         self._last_population_evaluation = None
 
     def check_termination(
@@ -283,14 +281,12 @@ class PopulationChangeRelativeTolerance(EvolvingAnsatzMinimumEigensolverBaseTerm
             raise ValueError("allowed_consecutive_violations must be at least 0!")
         self._allowed_consecutive_violations: int = allowed_consecutive_violations
         self._relative_change_history: list[float] = [
-            10 * self._minimum_relative_change for _ in range(0, self._allowed_consecutive_violations + 1)
+            float("inf") for _ in range(0, self._allowed_consecutive_violations + 1)
         ]
         self._last_population_evaluation: Optional[BasePopulationEvaluationResult] = None
 
     def reset_state(self) -> None:
-        self._relative_change_history = [
-            10 * self._minimum_relative_change for _ in range(0, self._allowed_consecutive_violations + 1)
-        ]
+        self._relative_change_history = [float("inf") for _ in range(0, self._allowed_consecutive_violations + 1)]
         self._last_population_evaluation = None
 
     def check_termination(
